@@ -126,6 +126,11 @@ func runParserProp(pp *pProp, tier string) int {
 				continue
 			}
 			runs += o.Resp.Runs
+		if os.Getenv("VERIF_NOTES") != "" {
+			for _, n := range o.Resp.Notes {
+				fmt.Println("NOTE:", n)
+			}
+		}
 			if pp.nontriv == nil || pp.nontriv(o.Resp) {
 				if pp.dkey != nil {
 					distinct[pp.dkey(reqs[i], o.Resp)] = true
